@@ -210,28 +210,15 @@ func incr(n int, Y_i []byte) (Y_ii []byte) {
 	Y_ii = make([]byte, BlockSize*n)
 	copy(Y_ii, Y_i)
 
+	// inc32: only the rightmost 32 bits count, modulo 2^32
 	addYone := func(yi, yii []byte) {
 		copy(yii[:], yi[:])
 
 		Len := len(yi)
-		var rc byte = 0x00
-		for i := Len - 1; i >= 0; i-- {
-			if i == Len-1 {
-				if yii[i] < 0xff {
-					yii[i] = yii[i] + 0x01
-					rc = 0x00
-				} else {
-					yii[i] = 0x00
-					rc = 0x01
-				}
-			} else {
-				if yii[i]+rc < 0xff {
-					yii[i] = yii[i] + rc
-					rc = 0x00
-				} else {
-					yii[i] = 0x00
-					rc = 0x01
-				}
+		for i := Len - 1; i >= Len-4; i-- {
+			yii[i]++
+			if yii[i] != 0x00 {
+				break
 			}
 		}
 	}
